@@ -12,7 +12,7 @@ import random
 from .. import core
 from ..rt import scen
 
-NAMES = ["FailStopWhileStopping", "FailStopSafe", "CauseFaithful", "FailStopObserved"]
+NAMES = ["FailStopWhileStopping", "FailStopSafe", "CauseFaithful", "InterruptEndsQuietly", "FailStopObserved"]
 HOWS = {
     "val": ["val:0", "val:0.0", "val:False", "val:''", "val:[]", "val:()", "val:x", "val:obj"],
     "exc": ["exc:LookupError", "exc:UserExc", "exc:UserExcSub", "exc:RuntimeError", "exc:FalsyExc"],
@@ -142,7 +142,7 @@ def run(ctx):
                           {"op": "park", "point": "h.fail.post"}, {"op": "end", "p": "f", "how": how_f}, {"op": "wait_park", "point": "h.fail.post"}, {"op": "end", "p": "g", "how": how_g}]
                 script += ([{"op": "sleep", "ms": 5}, {"op": "release", "point": "h.fail.post"}, {"op": "wait_end", "timeout": 4.0}] if order == "held-then-other" else [{"op": "wait_end", "timeout": 4.0}, {"op": "release", "point": "h.fail.post"}, {"op": "sleep", "ms": 50}])
                 extra.append({"seed": ctx.seed + k, "jitter": 0.0, "payloads": pl, "script": script, "shape": "targeted-two-failures-one-held"})
-    scen.run_family(ctx, sh, names=NAMES, allow=(), extra_scenarios=extra, mc_invariants=["FailStopSafe", "CauseFaithful", "AtMostOnce", "CleanupBeforeEnd"], mc_properties=["FailStopLive"], per_shape=16 if thorough else 6, depth=40, label="c01")
+    scen.run_family(ctx, sh, names=NAMES, allow=(), extra_scenarios=extra, mc_invariants=["FailStopSafe", "CauseFaithful", "InterruptEndsQuietly", "AtMostOnce", "CleanupBeforeEnd"], mc_properties=["FailStopLive"], per_shape=16 if thorough else 6, depth=40, label="c01")
     ctx.extra["rule"] = "shapes = failing flavour x failure kind (non-None value incl. falsy ones / Exception / BaseException / KeyboardInterrupt) x registration time (queued, adopted from a thread or from a payload of each flavour, service created before or after start) with bystanders of all flavours; per shape TLC-simulated behaviours projected to the controllable actions; distinct non-trivial = distinct (shape, sequence of starts/ends/cancellations/returns observed)"
     ctx.assumptions = [
         "no stop is requested from outside in these scenarios (a failure racing a shutdown is C12's subject)",
